@@ -2,8 +2,12 @@
 package main
 
 import (
+	"bytes"
 	"fmt"
+	"reflect"
 	"runtime"
+	"sort"
+	"strconv"
 	"strings"
 
 	"verifharness/fixref"
@@ -15,7 +19,7 @@ func howClass(e string) string { return e }
 
 func main() {
 	c := vk.Init("C17")
-	c.Rule("case i: PRNG(seed,i) draws a template (fields/components/groups, depth<=3, 7 value types, header/body/trailer), a population (each leaf populated with p=0.7 through one of 5 constructor/setter paths; Set(nil) un-population; group entries direct or via AsTemplate) and values; plus every tests/fix44 message type populated through the items it exposes. distinct = hash(template shape, wire bytes); non-trivial = at least one populated non-framing field")
+	c.Rule("case i: PRNG(seed,i) draws a template (fields/components/groups, depth<=3, 7 value types, header/body/trailer), a population (each leaf populated with p=0.7 through one of 5 constructor/setter paths; Set(nil) un-population; group entries direct or via AsTemplate) and values; plus every tests/fix44 message type populated through the items it exposes, plus the generated typed API by reflection (values set on group entries before AddEntry, on entries handed back by Entries(), and members replaced as a whole through Set<Component>/Set<Group> must be on the wire). distinct = hash(template shape, wire bytes); non-trivial = at least one populated non-framing field")
 	c.Assume("fixref tokenizer and the harness's expected-field computation are the trusted base")
 	c.Assume("a Message is always given a header and a trailer component (possibly empty); never-SetHeader messages are not generated")
 	n := c.Pick(20000, 500000)
@@ -95,6 +99,7 @@ func main() {
 		judge("fix44/"+ty.Name, i, fixref.Std, "fix44/"+ty.Name, exp, wire, err, pan, strings.Join(d, " | "), errs)
 		c.SetAdd("fix44_types", ty.Name)
 	})
+	typedAPI(c)
 	c.Finish()
 	fmt.Println("done")
 }
@@ -117,4 +122,191 @@ func countUnset(mp *gen.MsgPop) int {
 	walk(mp.Body)
 	walk(mp.Trailer)
 	return n
+}
+
+// ---------------------------------------------------------------------------
+// typed API of the generated reference package, driven by reflection: values put in through
+// the generated setters of group entries (also entries obtained back from Entries() after
+// AddEntry, and members replaced as a whole) must reach the wire.
+
+var ctorByType = map[reflect.Type]reflect.Value{}
+
+func buildTyped(t reflect.Type, depth int) (reflect.Value, bool) {
+	ctor, ok := ctorByType[t]
+	if !ok || depth > 4 {
+		return reflect.Value{}, false
+	}
+	ft := ctor.Type()
+	var args []reflect.Value
+	for i := 0; i < ft.NumIn(); i++ {
+		pt := ft.In(i)
+		switch pt.Kind() {
+		case reflect.String:
+			args = append(args, reflect.ValueOf("arg"+strconv.Itoa(i)))
+		case reflect.Int:
+			args = append(args, reflect.ValueOf(40+i))
+		case reflect.Float64:
+			args = append(args, reflect.ValueOf(1.25))
+		case reflect.Bool:
+			args = append(args, reflect.ValueOf(true))
+		case reflect.Ptr:
+			v, ok := buildTyped(pt, depth+1)
+			if !ok {
+				return reflect.Value{}, false
+			}
+			args = append(args, v)
+		default:
+			return reflect.Value{}, false
+		}
+	}
+	return ctor.Call(args)[0], true
+}
+
+// setMarker puts the marker into the first string-typed field the value offers a setter for.
+func setMarker(v reflect.Value, marker string) (string, bool) {
+	t := v.Type()
+	for i := 0; i < t.NumMethod(); i++ {
+		m := t.Method(i)
+		if !strings.HasPrefix(m.Name, "Set") || strings.HasPrefix(m.Name, "SetField") || m.Type.NumIn() != 2 || m.Type.In(1).Kind() != reflect.String {
+			continue
+		}
+		if m.Type.NumOut() != 1 || m.Type.Out(0) != t {
+			continue
+		}
+		v.Method(i).Call([]reflect.Value{reflect.ValueOf(marker)})
+		return m.Name, true
+	}
+	return "", false
+}
+
+func typedAPI(c *vk.Ctx) {
+	for _, f := range gen.F44Ctors {
+		ft := reflect.TypeOf(f)
+		if ft.Kind() == reflect.Func && ft.NumOut() == 1 {
+			ctorByType[ft.Out(0)] = reflect.ValueOf(f)
+		}
+	}
+	names := make([]string, 0, len(gen.F44TypedMessages))
+	for n := range gen.F44TypedMessages {
+		names = append(names, n)
+	}
+	sort.Strings(names)
+	mk := 0
+	marker := func() string { mk++; return "MRK" + strconv.Itoa(mk) + "x" }
+	onWire := func(msg reflect.Value, marker string) (bool, string) {
+		out := msg.MethodByName("ToBytes").Call(nil)
+		b := out[0].Bytes()
+		return bytes.Contains(b, []byte("="+marker+"\x01")), fixref.Pretty(b)
+	}
+	var visitGroups func(msgName string, msg reflect.Value, holder reflect.Value, path string, depth int)
+	visitGroups = func(msgName string, msg reflect.Value, holder reflect.Value, path string, depth int) {
+		if depth > 2 {
+			return
+		}
+		ht := holder.Type()
+		for i := 0; i < ht.NumMethod(); i++ {
+			m := ht.Method(i)
+			if m.Type.NumIn() != 1 || m.Type.NumOut() != 1 || m.Type.Out(0).Kind() != reflect.Ptr {
+				continue
+			}
+			gt := m.Type.Out(0)
+			add, ok := gt.MethodByName("AddEntry")
+			if !ok || add.Type.NumIn() != 2 {
+				continue
+			}
+			if _, ok := gt.MethodByName("Entries"); !ok {
+				continue
+			}
+			entryT := add.Type.In(1)
+			entry, ok := buildTyped(entryT, 0)
+			if !ok {
+				continue
+			}
+			m0 := marker()
+			setter0, ok := setMarker(entry, m0)
+			if !ok {
+				continue
+			}
+			where := path + "." + m.Name + "()"
+			before := holder.Method(i).Call(nil)[0].MethodByName("Entries").Call(nil)[0].Len()
+			holder.Method(i).Call(nil)[0].MethodByName("AddEntry").Call([]reflect.Value{entry})
+			c.Count("typed_api_checks", 1)
+			c.Eval(vk.Hash64([]byte("typed"), []byte(msgName+where+setter0)), true)
+			if ok, wire := onWire(msg, m0); !ok {
+				c.Violate("C17/typed-api/value-set-before-AddEntry-not-on-wire", fmt.Sprintf("%s%s.AddEntry(entry) with entry.%s(%q): the value is not on the wire: %s", msgName, where, setter0, m0, vk.Trunc(wire, 400)), map[string]interface{}{"message": msgName, "path": where})
+				continue
+			}
+			// the entry as handed back by Entries()
+			ents := holder.Method(i).Call(nil)[0].MethodByName("Entries").Call(nil)[0]
+			if ents.Len() != before+1 {
+				c.Violate("C17/typed-api/entries-count", fmt.Sprintf("%s%s.Entries() has %d entries after AddEntry on a group of %d", msgName, where, ents.Len(), before), nil)
+				continue
+			}
+			last := before
+			e0 := ents.Index(last)
+			et := e0.Type()
+			// scalar setter on the handed-back entry
+			m1 := marker()
+			if setter1, ok := setMarker(e0, m1); ok {
+				c.Count("typed_api_checks", 1)
+				if ok, wire := onWire(msg, m1); !ok {
+					c.Violate("C17/typed-api/setter-on-entry-from-Entries-lost/scalar", fmt.Sprintf("%s%s.Entries()[0].%s(%q): the value is not on the wire: %s", msgName, where, setter1, m1, vk.Trunc(wire, 400)), map[string]interface{}{"message": msgName, "path": where})
+				}
+			}
+			// member-replacing setters (components and nested groups) on the handed-back entry
+			for k := 0; k < et.NumMethod(); k++ {
+				sm := et.Method(k)
+				if !strings.HasPrefix(sm.Name, "Set") || sm.Type.NumIn() != 2 || sm.Type.In(1).Kind() != reflect.Ptr {
+					continue
+				}
+				argT := sm.Type.In(1)
+				arg, ok := buildTyped(argT, 0)
+				if !ok {
+					continue
+				}
+				m2 := marker()
+				placed := false
+				if add2, isGrp := argT.MethodByName("AddEntry"); isGrp {
+					sub, ok := buildTyped(add2.Type.In(1), 0)
+					if ok {
+						if _, ok := setMarker(sub, m2); ok {
+							arg.MethodByName("AddEntry").Call([]reflect.Value{sub})
+							placed = true
+						}
+					}
+				} else if _, ok := setMarker(arg, m2); ok {
+					placed = true
+				}
+				if !placed {
+					continue
+				}
+				// fetch the entry again each time, the way an application would
+				e := holder.Method(i).Call(nil)[0].MethodByName("Entries").Call(nil)[0].Index(last)
+				e.MethodByName(sm.Name).Call([]reflect.Value{arg})
+				c.Count("typed_api_checks", 1)
+				c.SetAdd("typed_member_setters_on_entries", et.Elem().Name()+"."+sm.Name)
+				if ok, wire := onWire(msg, m2); !ok {
+					c.Violate("C17/typed-api/setter-on-entry-from-Entries-lost/member", fmt.Sprintf("%s%s.Entries()[0].%s(<%s populated with %q>): the value is not on the wire: %s", msgName, where, sm.Name, argT.Elem().Name(), m2, vk.Trunc(wire, 500)), map[string]interface{}{"message": msgName, "path": where, "setter": sm.Name})
+				}
+			}
+			// nested groups inside the entry
+			visitGroups(msgName, msg, holder.Method(i).Call(nil)[0].MethodByName("Entries").Call(nil)[0].Index(last), where+".Entries()[last]", depth+1)
+		}
+	}
+	for _, n := range names {
+		ctor := reflect.ValueOf(gen.F44TypedMessages[n])
+		msg := ctor.Call(nil)[0]
+		visitGroups(n, msg, msg, n, 0)
+		// groups inside the header and inside body components
+		mt := msg.Type()
+		for i := 0; i < mt.NumMethod(); i++ {
+			m := mt.Method(i)
+			if m.Type.NumIn() == 1 && m.Type.NumOut() == 1 && m.Type.Out(0).Kind() == reflect.Ptr && (m.Name == "Header" || strings.HasPrefix(m.Type.Out(0).Elem().Name(), "Instrument") || strings.HasPrefix(m.Type.Out(0).Elem().Name(), "Underlying")) {
+				comp := msg.Method(i).Call(nil)[0]
+				if comp.IsValid() && !comp.IsNil() {
+					visitGroups(n, msg, comp, n+"."+m.Name+"()", 1)
+				}
+			}
+		}
+	}
 }
